@@ -37,6 +37,51 @@ type c05Focus struct {
 	used   map[int]bool
 }
 
+// speculate pre-executes, on ONE state branch that is thrown away, a prefix that allocates the
+// bridge ids the committed history is about to allocate - with OTHER configs (period, proposer,
+// challenger) - and evaluates finality on them (claim, deletes, further proposals).  Nothing of it
+// may survive: the committed bridges must behave according to their own configs.  (sc.Discarded
+// records the group, so the observing pass and the shrinker repeat it.)
+func speculate(sc *L1Scenario, periods ...int64) {
+	e := sc.Env
+	nb, _ := e.K.GetNextBridgeId(e.Ctx)
+	creator := e.User(6).Str
+	var g []L1Op
+	for k, p := range periods {
+		cfg := sc.NewConfig(uint64(5+k%2), uint64(6-k%2), p)
+		g = append(g, sc.Create(creator, cfg))
+	}
+	for k := range periods {
+		b := nb + uint64(k)
+		prop, chal := e.User(uint64(5+k%2)).Str, e.User(uint64(6-k%2)).Str
+		pt := sc.MakeTree(b, 2)
+		pt.Idx = 1
+		g = append(g, L1Op{Kind: "deposit", Sender: e.User(4).Str, Bridge: b, To: "l2user", Denom: pt.Tree.Ws[0].Denom, Amt: big.NewInt(500)},
+			L1Op{Kind: "propose", Sender: prop, Bridge: b, Idx: 1, L2: 3, Root: pt.Root},
+			sc.Claim(pt, 0, e.User(4).Str),
+			L1Op{Kind: "propose", Sender: prop, Bridge: b, Idx: 2, L2: 4, Root: pt.Root},
+			L1Op{Kind: "delete", Sender: chal, Bridge: b, Idx: 2},
+			L1Op{Kind: "delete", Sender: e.Auth, Bridge: b, Idx: 1},
+			L1Op{Kind: "uproposer", Sender: e.Auth, Bridge: b, NewAddr: chal})
+	}
+	sc.reg(creator, e.Auth, e.User(4).Str, e.User(5).Str, e.User(6).Str)
+	sc.Discarded(g...)
+}
+
+// a speculative period that differs from the committed one, shorter where possible
+func otherPeriod(p int64) int64 {
+	switch {
+	case p > sec:
+		if p > 3600*sec {
+			return sec
+		}
+		return 1
+	case p > 1:
+		return 1
+	}
+	return 3600 * sec
+}
+
 func c05Timeline(period int64) L1Builder {
 	return func(sc *L1Scenario) {
 		e, r, c := sc.Env, sc.R, sc.Case
@@ -47,8 +92,11 @@ func c05Timeline(period int64) L1Builder {
 				c.Do(sc.Create(creator, sc.NewConfig(1, 2, bp)))
 			}
 		}
-		c.Do(sc.Create(creator, sc.NewConfig(1, 2, period)))
 		other := c05Periods[r.Intn(4)]
+		if r.Chance(75) { // the ids 1 and 2 are first allocated, with other configs, on a discarded branch
+			speculate(sc, otherPeriod(period), otherPeriod(other))
+		}
+		c.Do(sc.Create(creator, sc.NewConfig(1, 2, period)))
 		c.Do(sc.Create(creator, sc.NewConfig(3, 4, other)))
 		if r.Chance(50) {
 			c.Do(sc.Create(creator, sc.NewConfig(1, 2, c05BadPeriods[r.Intn(len(c05BadPeriods))])))
@@ -240,7 +288,7 @@ func genC05(seed uint64, tier, outdir string) *Report {
 	tt := newTermTable()
 	for k := 0; k < nT; k++ {
 		period := c05Periods[k%len(c05Periods)]
-		c := RunL1Twice(seed*100000+50000+uint64(k), k+1, c05Timeline(period), rep)
+		c := runL1TwicePrep(seed*100000+50000+uint64(k), k+1, nil, c05Timeline(period), rep)
 		okK, errK := map[string]bool{}, map[string]bool{}
 		for i, o := range c.Ops {
 			kind := o.Kind
